@@ -78,7 +78,7 @@ def run(tier):
         w = sstrun.writer_cfg(rng)
         w["writer"] = "stream"
         cases = [dict(w, writes=[{"k": k, "v": rng.choice(vt + ["NIL"]), "fault": ""} for k in written], readers=sstrun.reader_cfgs(rng), probes=pr, ranges=rg)]
-        batches.append(("big-%s-%d" % (fam, n), keys, concrete.value_family(rng.choice(concrete.VALUE_FAMILIES), vt, rng), cases))
+        batches.append(("big%d-%s-%d" % (i, fam, n), keys, concrete.value_family(rng.choice(concrete.VALUE_FAMILIES), vt, rng), cases))
     total = sstrun.run_batches(o, binary, batches, "C03")
     o.evaluations = total
     o.nontrivial = len(tables) - 1 + nbig
